@@ -30,8 +30,8 @@ def P(theorems, quick, thorough, components, status, rule, explanation, assumpti
 PROPS = {
     'C01': P(
         ['C01_parse_total', 'C01_lexer_terminates', 'C01_renderers_total', 'C01_to_postgres_total', 'C01_to_param_postgres_total', 'C01_no_format_error'],
-        [('corpus', 0), ('enum', 1500), ('rand', 5000), ('lex', 2500), ('big', 0), ('nearmiss', 0)],
-        [('corpus', 0), ('enum', 20000), ('rand', 60000), ('lex', 30000), ('big', 0), ('trees', 20000)],
+        [('corpus', 0), ('enum', 1500), ('rand', 5000), ('lex', 2500), ('big', 0), ('nearmiss', 0), ('inject', 2000)],
+        [('corpus', 0), ('enum', 20000), ('rand', 60000), ('lex', 30000), ('big', 0), ('trees', 20000), ('inject', 30000), ('nearmiss', 0)],
         PARSE + PRINT + SQL,
         'full: parser loop total within 4n+4 steps for every token list; all five renderers and both public wrappers return on every parse result; no bad formatting verb. Wall-clock cost of fmt/encoding-json is measured (observer watchdog), not proved.',
         'token sequences exhaustively to length 3 (quick) / 4 (thorough) over a 26-symbol alphabet x {no default field, d}, random structured queries with every leaf kind, random byte strings incl. invalid UTF-8/NUL, adversarial 2k/10k-token shapes; non-trivial = accepted by Parse (all renderers then run); distinct = distinct parse trees',
@@ -56,11 +56,11 @@ PROPS = {
         'the theorem C03_faithful over all trees and all rows is a growth item; the check is a search device plus the correspondence',
         ['PostgreSQL reading of the SQL text is the PgModel one; string order is byte order on both sides']),
     'C04': P(
-        ['C04_placeholders_match_parameters', 'C04_render_param_returns'],
+        ['C04_placeholders_match_parameters', 'C04_parameters_are_the_values', 'C04_render_param_returns'],
         [('corpus', 0), ('rand', 4000), ('subst', 1500), ('quote', 1000), ('sem', 2500)],
         [('corpus', 0), ('rand', 60000), ('subst', 20000), ('quote', 20000), ('sem', 40000)],
         PARSE + SQL,
-        'partial: clause (a) placeholder count = parameter count proved for every tree of parser shape outside K13; RenderParam total. Clauses (b) parameters = values in order with kinds, (c) equivalence after substitution, (d) SQL text independent of values: decided by C04_check on the implementation observations (and by the correspondence).',
+        'partial: clause (a) placeholder count = parameter count proved for every tree of parser shape outside K13; clause (b) parameters = the values in left-to-right order with their Go kinds proved for every tree of parser shape; RenderParam total. Clauses (c) equivalence after substitution and (d) SQL text independent of values are decided by C04_check on the implementation observations (probe rows, substitution pairs) and by the correspondence.',
         'random structured queries, same-kind value substitutions (pairs), quoted/escaped values; non-trivial = both renderers succeeded',
         'C04_check on (inline, parameterized) observation pairs and on substitution pairs.',
         ['oracle fact: ParseFloat rejects a text starting with a quote']),
